@@ -9,7 +9,7 @@ from ..core import AnalysisError, Report
 from ..linexpr import Env, py_ir, to_lin
 from ..pycfg import build_py_cfg, run_typestate
 from ..pysubst import method_outcomes
-from ..pyfacts import Repo, cc, cn, inline_module_constants, inline_pure_temps, clone, eval_int_expr, calls, dotted, norm, raise_guards, raised_class, walk_no_nested
+from ..pyfacts import Repo, canonical_fn, calls_in_order, cc, cn, inline_module_constants, inline_pure_temps, clone, eval_int_expr, calls, dotted, norm, raise_guards, raised_class, walk_no_nested
 
 ASM = 'flipjump/assembler/assembler.py'
 PRE = 'flipjump/assembler/preprocessor.py'
@@ -261,7 +261,7 @@ def rule_paired(rep: Report, repo: Repo) -> None:
              'cursor advancing by k*w; holes and chain spots are addressed as base + w*index; the segment length is derived from '
              'the same cursors', 5)
     aenv = Env({'self.memory_width': {'w': 1}})
-    fj = repo.func(ASM, 'BinaryData.insert_fj_op')
+    fj = canonical_fn(repo, ASM, 'BinaryData.insert_fj_op')
     ext = [norm(s.value) for s in fj.body if isinstance(s, ast.AugAssign) and norm(s.target) == 'self.fj_words']
     adv = [lx.lin_show(to_lin(py_ir(s.value), aenv)) for s in fj.body if isinstance(s, ast.AugAssign) and norm(s.target) == 'self.current_address']
     rep.check(ext == ['(flip, jump)'] and adv == ['2*w'], 'C02.PAIRED-UPDATE', 'insert_fj_op', f'words += {ext}; address += {adv}', f'{ASM}:{fj.lineno}')
@@ -334,12 +334,18 @@ def rule_paired(rep: Report, repo: Repo) -> None:
     rep.check(not wrong and len(adv) == 1 and adv[0] in ('(2*w)*(ops_count)', '(ops_count)*(2*w)'), 'C02.PAIRED-UPDATE', 'insert_padding',
               f'{shape}: ' + (wrong[0] if wrong else 'indices range(L, L+2k, 2), 2k zero words') + f'; address += {adv}', f'{ASM}:{pad.lineno}',
               expected='ops_count holes recorded at the indices of the zero words added; address += ops_count * 2w')
-    seg = repo.func(ASM, 'add_segment_to_fjm')
-    defs = {norm(s.targets[0]): norm(s.value) for s in seg.body if isinstance(s, ast.Assign)}
-    rep.check(defs.get('segment_start_address') == 'first_address // memory_width' and
-              defs.get('segment_length') == '(last_address - first_address) // memory_width' and defs.get('data_words') == 'fj_words + wflip_words',
-              'C02.PAIRED-UPDATE', 'add_segment_to_fjm', str(defs), f'{ASM}:{seg.lineno}')
-    clo = repo.func(ASM, 'BinaryData.close_and_add_segment')
+    # named temporaries substituted, private helpers expanded: what reaches the writer is read off the two writer calls
+    seg = canonical_fn(repo, ASM, 'add_segment_to_fjm')
+    w_args = [[norm(a) for a in c.args] for c in calls(seg) if dotted(c.func) == 'fjm_writer.add_segment']
+    d_args = [[norm(a) for a in c.args] for c in calls(seg) if dotted(c.func) == 'fjm_writer.add_data']
+    d_names = [norm(s.targets[0]) for s in ast.walk(seg) if isinstance(s, ast.Assign) and isinstance(s.value, ast.Call)
+               and dotted(s.value.func) == 'fjm_writer.add_data']
+    dn = d_names[0] if d_names else '?'
+    rep.check(w_args == [['first_address // memory_width', '(last_address - first_address) // memory_width', dn, 'len(fj_words + wflip_words)']]
+              and d_args == [['fj_words + wflip_words']],
+              'C02.PAIRED-UPDATE', 'add_segment_to_fjm', f'add_data{d_args} add_segment{w_args}', f'{ASM}:{seg.lineno}',
+              expected='start = first // w, length = (last - first) // w, data = fj_words + wflip_words and its length')
+    clo = canonical_fn(repo, ASM, 'BinaryData.close_and_add_segment')
     args = [[norm(a) for a in c.args] for c in calls(clo) if dotted(c.func) == 'add_segment_to_fjm']
     rep.check(args == [['self.memory_width', 'fjm_writer', 'self.first_address', 'self.next_wflip_address', 'self.fj_words', 'self.wflip_words']],
               'C02.PAIRED-UPDATE', 'close_and_add_segment', str(args), f'{ASM}:{clo.lineno}', expected='[first_address, next_wflip_address) with both word lists')
@@ -350,35 +356,55 @@ def rule_flush_all(rep: Report, repo: Repo) -> None:
              'method that calls it, a return that skips the write is taken only under the test that the address range handed to the '
              'write is empty (first == last over the same two operands); emptiness of one of the word lists is not that test - chain '
              'ops may be buffered in wflip_words while fj_words is empty (after a reserve)', 2)
-    def early_returns(fn: ast.AST, before_line: int) -> List[Tuple[ast.Return, List[str]]]:
+    def early_returns(fn: ast.AST, before: ast.AST) -> List[Tuple[ast.Return, List[str]]]:
+        """the returns that come before the node `before` in the tree order of fn (positions, not line numbers: an expanded helper
+        keeps the line numbers of its own source), each with the conjuncts of the `if` it sits in (none for a bare return)"""
+        pos = {id(n): k for k, n in enumerate(walk_no_nested(fn))}
+        limit = pos.get(id(before), 10 ** 9)
         out = []
-        for n in ast.walk(fn):
+        for n in walk_no_nested(fn):
             if isinstance(n, ast.If):
                 for r in n.body:
-                    if isinstance(r, ast.Return) and r.lineno < before_line:
+                    if isinstance(r, ast.Return) and pos[id(r)] < limit:
                         conj = n.test.values if isinstance(n.test, ast.BoolOp) and isinstance(n.test.op, ast.And) else [n.test]
                         out.append((r, [norm(c) for c in conj]))
-        bare = [r for r in getattr(fn, 'body', []) if isinstance(r, ast.Return) and r.lineno < before_line]
+        bare = [r for r in getattr(fn, 'body', []) if isinstance(r, ast.Return) and pos[id(r)] < limit]
         out += [(r, []) for r in bare]
         return out
-    seg = repo.func(ASM, 'add_segment_to_fjm')
+    seg = canonical_fn(repo, ASM, 'add_segment_to_fjm')
     writes = [c for c in calls(seg) if dotted(c.func) == 'fjm_writer.add_segment']
     if not writes:
         raise AnalysisError('C02.FLUSH-ALL: add_segment_to_fjm no longer calls fjm_writer.add_segment')
-    ers = early_returns(seg, writes[0].lineno)
+    ers = early_returns(seg, writes[0])
     ok = all(('first_address == last_address' in g or 'last_address == first_address' in g) for _, g in ers)
     rep.check(ok, 'C02.FLUSH-ALL', 'add_segment_to_fjm', f'{len(ers)} early return(s) guarded by {[g for _, g in ers]}', f'{ASM}:{seg.lineno}',
               expected='only `first_address == last_address` skips the write')
     n = 0
     for name, fns in repo.methods(ASM, 'BinaryData').items():
-        fn = fns[-1]
+        if not [c for c in calls(fns[-1]) if dotted(c.func) == 'add_segment_to_fjm']:
+            continue
+        fn = canonical_fn(repo, ASM, f'BinaryData.{name}')
         fl = [c for c in calls(fn) if dotted(c.func) == 'add_segment_to_fjm']
         if not fl:
             continue
         n += 1
         a, b = norm(fl[0].args[2]), norm(fl[0].args[3])
-        ers = early_returns(fn, fl[0].lineno)
+        ers = early_returns(fn, fl[0])
         bad = [g for _, g in ers if f'{a} == {b}' not in g and f'{b} == {a}' not in g]
+        # the write itself may sit under a test: only the non-empty-range test may guard it
+        from ..pyfacts import ancestors as _anc
+        child: ast.AST = fl[0]
+        for an in _anc(fl[0]):
+            if isinstance(an, ast.If):
+                in_body = any(child is x or any(child is y for y in ast.walk(x)) for x in an.body)
+                want = cn(ast.parse(f'{a} != {b}' if in_body else f'{a} == {b}', mode='eval').body)
+                if any(child is y for y in ast.walk(an.test)):
+                    pass
+                elif cn(an.test) != want:
+                    bad.append([f'the write is guarded by `{norm(an.test)}`'])
+            child = an
+            if an is fn:
+                break
         rep.check(not bad, 'C02.FLUSH-ALL', f'BinaryData.{name}', f'{len(ers)} early return(s); not tied to the range test: {bad}' if bad else
                   f'{len(ers)} early return(s), each under `{b} == {a}`', f'{ASM}:{fn.lineno}',
                   expected=f'a return before the write only under `{b} == {a}`')
@@ -419,14 +445,14 @@ def rule_pad_state(rep: Report, repo: Repo) -> None:
 def rule_validate_first(rep: Report, repo: Repo) -> None:
     rep.rule('C02.VALIDATE-FIRST', 'segment boundaries are validated (alignment, inside the address space) before any data is added; '
              'impossible layouts are rejected with library errors', 3)
-    seg = repo.func(ASM, 'add_segment_to_fjm')
-    order = [dotted(c.func) for c in sorted(calls(seg), key=lambda c: (c.lineno, c.col_offset)) if dotted(c.func) in
+    seg = canonical_fn(repo, ASM, 'add_segment_to_fjm')
+    order = [dotted(c.func) for c in calls_in_order(seg) if dotted(c.func) in
              ('validate_addresses', 'fjm_writer.add_data', 'fjm_writer.add_segment')]
     rep.check(order == ['validate_addresses', 'fjm_writer.add_data', 'fjm_writer.add_segment'], 'C02.VALIDATE-FIRST', 'add_segment_to_fjm:order',
               str(order), f'{ASM}:{seg.lineno}')
-    va = repo.func(ASM, 'validate_addresses')
+    va = canonical_fn(repo, ASM, 'validate_addresses', keep=['assert_address_in_memory'])
     g = [(cn(t), raised_class(r)) for t, r, _ in raise_guards(va)]
-    cs = [norm(c) for c in calls(va) if dotted(c.func) == 'assert_address_in_memory']
+    cs = [norm(c) for c in calls_in_order(va) if dotted(c.func) == 'assert_address_in_memory']
     rep.check(g == [(cc('first_address % memory_width != 0 or last_address % memory_width != 0'), 'FlipJumpAssemblerException')] and
               cs == ['assert_address_in_memory(memory_width, first_address)', 'assert_address_in_memory(memory_width, last_address - 1)'],
               'C02.VALIDATE-FIRST', 'validate_addresses', f'{g}; {cs}', f'{ASM}:{va.lineno}')
@@ -434,12 +460,23 @@ def rule_validate_first(rep: Report, repo: Repo) -> None:
     g = [(cn(t), raised_class(r)) for t, r, _ in raise_guards(am)]
     rep.check(g == [(cc('address < 0 or address >= 1 << memory_width'), 'FlipJumpAssemblerException')], 'C02.VALIDATE-FIRST',
               'assert_address_in_memory', str(g), f'{ASM}:{am.lineno}', expected='0 <= address < 2^w')
-    for q, test in (('get_next_segment_start', 'next_segment_start % preprocessor_data.memory_width != 0'),
-                    ('get_reserved_bits_size', 'reserved_bits_size % preprocessor_data.memory_width != 0')):
+    # the value handed on by the two layout helpers is w-aligned: every `return <value>` is reached only when
+    # <value> % memory_width == 0 is known (enclosing / preceding tests, a preceding test that ends in the NoReturn error helper)
+    from ..excflow import GuardFacts, dominating_guards
+    for q in ('get_next_segment_start', 'get_reserved_bits_size'):
         fn = repo.func(PRE, q)
-        ok = any(isinstance(n, ast.If) and cn(n.test) == cc(test) and any(isinstance(c, ast.Call) and dotted(c.func) == 'macro_resolve_error'
-                 for c in ast.walk(n)) for n in ast.walk(fn))
-        rep.check(ok, 'C02.VALIDATE-FIRST', q, f'w-alignment check present={ok}', f'{PRE}:{fn.lineno}')
+        rets = [r for r in walk_no_nested(fn) if isinstance(r, ast.Return) and r.value is not None]
+        okv = bool(rets)
+        why = []
+        for r in rets:
+            gf = GuardFacts(dominating_guards(r))
+            v = norm(r.value)
+            known = gf.get(f'{v} % preprocessor_data.memory_width == 0')
+            why.append(f'return {v}: aligned={known}')
+            okv = okv and known is True
+        errs = any(isinstance(c, ast.Call) and dotted(c.func) == 'macro_resolve_error' for c in ast.walk(fn))
+        rep.check(okv and errs, 'C02.VALIDATE-FIRST', q, f'w-alignment known at every value return: {why}; error helper called={errs}', f'{PRE}:{fn.lineno}',
+                  expected='the returned address / size is a multiple of w, otherwise the resolve error')
 
 
 def check(rep: Report, repo: Optional[Repo] = None) -> None:
